@@ -39,6 +39,10 @@ def harnesses(tier, seed):
         for c in (['ref0only', 'flip'] if q else ['ref0only', 'flip', 'arr', 'pos', 'resref']):
             for mode in ('fwd', 'rev'):
                 jobs.append(dict(fn='h_scaled_options', params=dict(prog=prog, cls=c, mode=mode)))
+    if q:   # options given on the model for a component two levels down; an input reading part of the re-scaled output
+        jobs.append(dict(fn='h_scaled_options', params=dict(prog='auto_units', cls='ref0only', mode='rev')))
+        jobs.append(dict(fn='h_scaled_options', params=dict(prog='auto_units', cls='resref', mode='fwd')))
+        jobs.append(dict(fn='h_scaled_options', params=dict(prog='branches', cls='ref0only', mode='fwd')))
     for prog in (['basic', 'idx_flat'] if q else ['basic', 'idx_flat', 'branches', 'auto_units']):
         for c in (['flip', 'arr'] if q else ['flip', 'arr', 'ref0only', 'pos']):
             for aitken in (True, False):
